@@ -74,6 +74,62 @@ def rand_pattern(rng: random.Random, depth: int) -> str:
     return alt(depth)
 
 
+ATOM_EXAMPLES = {".": "x", "\\.": ".", "\\|": "|", "\\[": "[", "\\]": "]", "\\-": "-", "\\n": "\n", "\\r": "\r", "\\t": "\t", "\\\\": "\\",
+                 "\\(": "(", "\\)": ")", "\\*": "*", "\\+": "+", "\\?": "?", "\\{": "{", "\\}": "}", "\\^": "^",
+                 "\\p{L}": "a", "\\P{L}": "1", "\\p{Lu}": "A", "\\p{Ll}": "a", "\\P{Lu}": "a", "\\p{Nd}": "1", "\\p{N}": "1", "\\p{Zs}": " ",
+                 "\\p{Z}": " ", "\\p{P}": "-", "\\p{Pd}": "-", "\\p{S}": "+", "\\p{Sm}": "+", "\\p{C}": "\n", "\\p{Cc}": "\n", "\\p{So}": "😀",
+                 "\\P{So}": "a"}
+ITEM_EXAMPLES = {"a-c": "b", "0-9": "1", "A-Z": "A", "!-,": "&", " -~": "~", "\\n-\\r": "\n", "\\p{L}": "a", "\\P{Nd}": "a", "\\p{Zs}": " ",
+                 "\\p{Lu}": "A"}
+
+
+def example_of_atom(atom: str, rng: random.Random) -> str:
+    """A string the atom is meant to match (a proposal only: the specification decides)."""
+    if atom in ATOM_EXAMPLES:
+        return ATOM_EXAMPLES[atom]
+    if atom.startswith("[") and atom.endswith("]"):
+        body = atom[1:-1]
+        if body.startswith("^"):
+            return rng.choice(["z", "Q", "7", "_"])
+        for it, ex in ITEM_EXAMPLES.items():
+            if it in body and rng.random() < 0.5:
+                return ex
+        for ch in body:
+            if ch not in "\\-^":
+                return ch
+        return "-"
+    return atom if len(atom) == 1 else atom[-1]
+
+
+def rand_pattern_ex(rng: random.Random, depth: int):
+    """(pattern, example): a pattern and a string built alongside it that is meant to match."""
+    def piece(d):
+        k = rng.random()
+        if d > 0 and k < 0.25:
+            p, e = alt(d - 1)
+            a, ex = "(" + p + ")", e
+        elif k < 0.5:
+            a = rand_class(rng)
+            ex = example_of_atom(a, rng)
+        else:
+            a = rng.choice(ATOMS)
+            ex = example_of_atom(a, rng)
+        q = rng.choice(QUANTS)
+        reps = {"": 1, "?": rng.choice([0, 1]), "*": rng.choice([0, 1, 2]), "+": rng.choice([1, 2]), "{2}": 2, "{1,2}": rng.choice([1, 2]),
+                "{1,}": rng.choice([1, 3]), "{0}": 0, "{0,1}": rng.choice([0, 1]), "{3}": 3, "{2,3}": rng.choice([2, 3]), "{0,}": rng.choice([0, 2])}[q]
+        return a + q, ex * reps
+
+    def branch(d):
+        ps = [piece(d) for _ in range(rng.choice([1, 1, 2, 2, 3]))]
+        return "".join(p for p, _ in ps), "".join(e for _, e in ps)
+
+    def alt(d):
+        bs = [branch(d) for _ in range(rng.choice([1, 1, 1, 2, 3]))]
+        return "|".join(p for p, _ in bs), rng.choice(bs)[1]
+
+    return alt(depth)
+
+
 def rand_subject(rng: random.Random) -> str:
     return "".join(rng.choice(SUBJ_ALPHA) for _ in range(rng.choice([0, 1, 1, 2, 2, 3, 3, 4])))
 
@@ -92,6 +148,11 @@ def run(chk: core.Check, tier: str, seed: int) -> None:
     n_rand = 400 if tier == "quick" else 12000
     patterns += [rand_pattern(rng, rng.choice([1, 2, 3])) for _ in range(n_rand)]
     patterns += [rand_class(rng) + rng.choice(["", "", "+", "*", "{2}"]) for _ in range(n_rand // 2)]
+    directed = {}
+    for _ in range(n_rand):
+        pat, ex = rand_pattern_ex(rng, rng.choice([1, 2]))
+        directed.setdefault(pat, []).append(ex)
+    patterns += list(directed)
     patterns += ["[\\].]", "[\\]a-c.]+", "[.\\]]", "[\\[.]", "[\\\\.]", "[\\].][.]", "[^\\].]", "[a\\]|.]"]
     recs = []
     for p in patterns:
@@ -99,6 +160,9 @@ def run(chk: core.Check, tier: str, seed: int) -> None:
             subs = rng.sample(short_subjects, 9) + [rand_subject(rng) for _ in range(5)]
         else:
             subs = short_subjects + [rand_subject(rng) for _ in range(10)]
+        for ex in directed.get(p, []):
+            # subjects built alongside the pattern: the example, and the example with something around it
+            subs = [ex, "q" + ex, ex + "\n", ex[:-1], ex + ex] + subs[:8]
         subs = subs + [1, None, True, ["a"], {"a": "a"}]
         doc = {"s": subs, "p": p}
         try:
